@@ -195,6 +195,27 @@ pub fn boundary_families(full: bool) -> Vec<(String, String)> {
         push("bf:block-explicit", format!("- |{ind}\n{}x\n", " ".repeat(ind + 1)));
         push("bf:block-explicit-keep", format!("k:\n  - >{ind}+\n{}x\n\n\n", " ".repeat(ind + 2)));
     }
+    // escape sequences at the edges of the code space (surrogates, last code point, NUL) in the three widths,
+    // complete, truncated and with a non-hex digit, in double quotes (and inert in single quotes / plain)
+    for code in [0x0u32, 0x7f, 0x80, 0xff, 0x100, 0xd7ff, 0xd800, 0xdbff, 0xdc00, 0xdfff, 0xe000, 0xfffd, 0xfffe, 0xffff, 0x10000, 0x10ffff, 0x110000, 0x7fffffff, 0xffffffff] {
+        let mut forms = vec![format!("\\U{code:08x}"), format!("\\U{code:08X}")];
+        if code <= 0xffff {
+            forms.push(format!("\\u{code:04x}"));
+        }
+        if code <= 0xff {
+            forms.push(format!("\\x{code:02x}"));
+        }
+        for f in forms {
+            push("bf:escape", format!("\"{f}\"\n"));
+            push("bf:escape-key", format!("\"a{f}b\": [\"{f}\"]\n"));
+            push("bf:escape-single", format!("'{f}'\n"));
+            push("bf:escape-trunc", format!("\"{}\"\n", &f[..f.len() - 1]));
+            push("bf:escape-nonhex", format!("\"{}g\"\n", &f[..f.len() - 1]));
+        }
+    }
+    for c in "0abtnvfre \"/\\N_LPxuUqz1\t".chars() {
+        push("bf:escape-short", format!("\"a\\{c}b\"\n"));
+    }
     // flow nesting around the u8 limit
     for n in [254usize, 255, 256, 257, 258] {
         push("bf:flowdepth-seq", format!("{}{}", "[".repeat(n), "]".repeat(n)));
